@@ -281,6 +281,7 @@ class Def:
         self.where = where or []
         self.discr = {}     # variant name -> explicit discriminant (unit variants of deep-copy enums only)
         self.module = ''            # near-miss mutants live in a sub-module, under the same identifier
+        self.const_first = False    # const parameters declared before the type parameters (legal since Rust 1.59)
         self.block = None           # twins: different definitions under one identifier in sibling blocks of one function
                                     # (`core::any::type_name` is the same for all of them)
 
@@ -313,7 +314,7 @@ class Def:
         return sorted(set(te[1] for _, _, fields in self.variants for _, te in fields if te[0] == 'param'))
 
     def generics_decl(self, with_defaults=True):
-        parts = []
+        parts, cparts = [], []
         for p in self.tparams:
             s = p['name']
             if p['bounds']: s += ': ' + ' + '.join(p['bounds'])
@@ -322,11 +323,13 @@ class Def:
         for c in self.cparams:
             s = 'const %s: %s' % (c['name'], c['prim'])
             if with_defaults and c.get('default') is not None: s += ' = ' + const_lit(c['prim'], c['default'])
-            parts.append(s)
+            cparts.append(s)
+        parts = (cparts + parts) if self.const_first else (parts + cparts)
         return ('<' + ', '.join(parts) + '>') if parts else ''
 
     def generics_use(self):
-        parts = [p['name'] for p in self.tparams] + [c['name'] for c in self.cparams]
+        tp, cp = [p['name'] for p in self.tparams], [c['name'] for c in self.cparams]
+        parts = (cp + tp) if self.const_first else (tp + cp)
         return ('<' + ', '.join(parts) + '>') if parts else ''
 
     def rust_def(self):
@@ -449,7 +452,8 @@ class Adt(Ty):
         self.fragile = self.d.copy == 'zero' and self.has_unchecked()
 
     def rust(self):
-        parts = [t.rust() for t in self.targs] + [const_lit(c['prim'], v) for c, v in zip(self.d.cparams, self.cargs)]
+        tp, cp = [t.rust() for t in self.targs], [const_lit(c['prim'], v) for c, v in zip(self.d.cparams, self.cargs)]
+        parts = (cp + tp) if self.d.const_first else (tp + cp)
         return self.d.path() + (('<' + ', '.join(parts) + '>') if parts else '')
 
     def term(self):
@@ -501,7 +505,8 @@ class Adt(Ty):
             for fn, te in fields:
                 if te[0] == 'param': lit.add(te[1])
         parts = [(t.deser_rust(lt) if i in lit else t.rust()) for i, t in enumerate(self.targs)]
-        parts += [const_lit(c['prim'], v) for c, v in zip(self.d.cparams, self.cargs)]
+        cp = [const_lit(c['prim'], v) for c, v in zip(self.d.cparams, self.cargs)]
+        parts = (cp + parts) if self.d.const_first else (parts + cp)
         return self.d.path() + (('<' + ', '.join(parts) + '>') if parts else '')
 
     def gen(self, rng, budget, force=None):
@@ -955,6 +960,23 @@ def stress_defs(prefix='K'):
         defs.append(x)
     # an enum with more variants than a byte can number: the tag of a deep-copy enum is a usize index, the one of a zero-copy
     # enum its C representation; variants 255 .. 259 straddle the byte boundary, one of them carries a field
+    # round 7: const parameters declared before the type parameters; raw identifiers as field names (hashed with their
+    # `r#`); a deep structure around a byte-aligned zero-copy type whose unit is larger than its alignment
+    cf = Def(prefix + 'CF1', False, 'none', [], 1, [{'name': 'T', 'bounds': [], 'default': None, 'role': 'eps'}],
+             [{'name': 'N', 'prim': 'usize', 'default': None}, {'name': 'B', 'prim': 'bool', 'default': None}],
+             [(prefix + 'CF1', 'named', [('rows', ('param', 0)), ('n', P('u8'))])])
+    cf.const_first = True
+    defs.append(cf)
+    cfe = Def(prefix + 'CF2', True, 'none', [], 1, [{'name': 'T', 'bounds': [], 'default': None, 'role': 'eps'}],
+              [{'name': 'N', 'prim': 'u8', 'default': None}], [('A', 'unit', []), ('B', 'tuple', [('g0', ('param', 0))])])
+    cfe.const_first = True
+    defs.append(cfe)
+    cfz = Def(prefix + 'CF3', False, 'zero', ['C'], 1, [], [{'name': 'N', 'prim': 'usize', 'default': None}],
+              [(prefix + 'CF3', 'named', [('a', ('const_arr', P('u16'), 0)), ('b', P('u8'))])])
+    cfz.const_first = True
+    defs.append(cfz)
+    defs.append(Def(prefix + 'R1', False, 'none', [], 1, [], [], [(prefix + 'R1', 'named', [('r#type', P('u8')), ('r#loop', ('ty', Str())), ('plain', P('u16'))])]))
+    defs.append(Def(prefix + 'R2', False, 'zero', ['C'], 1, [], [], [(prefix + 'R2', 'named', [('r#match', P('u32')), ('r#fn', P('u8'))])]))
     many = [('V%d' % k, 'unit', []) for k in range(260)]
     many[257] = ('V257', 'tuple', [('g0', P('u16'))])
     defs.append(Def(prefix + 'X5', True, 'none', [], 1, [], [], list(many)))
